@@ -331,6 +331,14 @@ theorem C21_heals (o : Opts) (f : File) (hd : o.dryRun = false) (h : Healable f.
 
 example : Healable (File.cond ⟨[⟨0, true, 5⟩], [.put 7], false, false, true, .ok, .corrupt, .ok, .corrupt, true⟩) = true := by decide
 
+-- non-vacuity: a crash-left file with a damaged header pointer, forced vacuum + vec rebuild: healed, second run clean
+example : statusOf (doctor false ⟨false, false, true, true, false⟩
+      ⟨[⟨0, true, 5⟩], [.put 7], false, true, true, .ok, .ok, .ok, .ok, true⟩).out = some .healed ∧
+    (doctor false Opts.default (doctor false ⟨false, false, true, true, false⟩
+      ⟨[⟨0, true, 5⟩], [.put 7], false, true, true, .ok, .ok, .ok, .ok, true⟩).file).out
+      = .report .clean .none [(.verify, .executed)] := by
+  decide
+
 /-- a run on a file with nothing to repair -/
 theorem good_second_run (o : Opts) (f1 : File) (hd : o.dryRun = false) (hg : Good f1.cond = true) :
     doctor false Opts.default f1 = ⟨.report .clean .none [(.verify, .executed)], f1⟩ ∧
@@ -369,6 +377,8 @@ theorem C21_idem (o : Opts) (f : File) (hd : o.dryRun = false) (h : Healable f.c
   exact ⟨a, b, c, d.trans (C21_preserve false o f hw0)⟩
 
 /-! ### single faults -/
+
+
 
 /-- damage of the structures the property names (true = damaged) -/
 structure Dmg where
@@ -423,6 +433,9 @@ def C21_full : Prop :=
 
 def witnessFile : File := ⟨[⟨0, true, 5⟩], [], true, true, true, .ok, .ok, .ok, .ok, true⟩
 def witnessDmg : Dmg := ⟨false, false, true, .ok, false, false, false⟩
+
+example : Healthy witnessFile ∧ Dmg.count ⟨true, false, false, .ok, false, false, false⟩ ≤ 1 := by
+  refine ⟨by simp [Healthy, witnessFile], by decide⟩
 
 /-- **C21 counterexample.**  A flipped byte in the TOC's own checksum field (no WAL records pending): open refuses the
     TOC, the doctor reports Failed and the file still does not open. -/
